@@ -406,7 +406,13 @@ func c17Case(t *rapid.T, extreme bool) {
 				if y == 0 || (y < 0) != b.neg {
 					continue
 				}
+				// slack: 1e-9, plus what index offsets of large magnitude cost (an offset of 1e9 is only known to 1.2e-7
+				// of a bin, so that Index and LowerBound of both mappings may place an edge that far away)
 				sl := 1e-9
+				for _, mm := range []mapping.IndexMapping{m1, m2} {
+					gg, oo := gen.GammaOf(mm)
+					sl += 4 * (gen.NextUp(math.Abs(oo), 1) - math.Abs(oo)) * math.Log(gg)
+				}
 				if yLo <= b.sHi*(1+sl) && yHi >= b.sLo*(1-sl) {
 					ok = true
 				}
